@@ -14,7 +14,7 @@
 (*         <<3, dir, lines>>                                                *)
 (*   out   number of bytes outside the cell grid (guard bytes around the    *)
 (*         frame buffer, logo rows above the text area) that differ from    *)
-(*         what they held before the call                                   *)
+(*         what they held when the console was set up                       *)
 (*   scr   at checkpoints: what every console cell SHOWS, as a cell code:   *)
 (*         text mode: the character / attribute pair of the cell;           *)
 (*         frame buffer: the <<ch, fg, bg>> whose glyph rendered in the     *)
